@@ -697,13 +697,17 @@ def p_ctl(eng, st, name, args, site, depth, call):
     short = name.split("::")[-2] + "::" + op
     if op == "prepare_hooks":
         # one f(h) per registered hook: summarise the closure on an opaque hook address
-        h = ("hookaddr", st.fresh())
+        h = ("hookaddr",)
         out = []
         for s2, r in eng.call_value(st, args[2], [h], site, depth):
-            r = eng.val(s2, r)
-            _eff(s2, "prim", name=short, item=recv, args=(recv, r), site=site)
-            res = ("call", short, (recv, r))
-            out.append((s2, res))
+            # prepare_hooks collects f(h) for every hook and fails as a whole when any f(h) fails
+            for s3, n, pl in eng.force_enum(s2, r, RESULT, site):
+                if n == "Ok":
+                    v = eng.val(s3, pl[0])
+                    _eff(s3, "prim", name=short, item=recv, args=(recv, v), site=site)
+                    out.append((s3, OK(("call", short, (recv, v)))))
+                else:
+                    out.append((s3, ERR(eng.val(s3, pl[0]))))
         return out
     kind = "prim"
     _eff(st, kind, name=short, item=recv, args=vs, op=("read" if op in _CTL_READS else "write"), site=site)
